@@ -737,7 +737,7 @@ OpCheckTransfer(v, h) ==
     LET a == Pop(Pop(Pop(PopInt(Pop(v))))) IN  \* id, amount, constraint, destination, count
     IF Bad(a) THEN a
     ELSE LET cnt == FromU(a.p[5]) IN
-         IF ~IsSmall(cnt) THEN Raise(a, "IndexError")
+         IF ~IsSmall(cnt) THEN Raise([a EXCEPT !.stack = <<>>], "IndexError")     \* every item is taken before the stack runs out
          ELSE LET b == PopN(a, 2 * ToInt(cnt)) IN
               IF Bad(b) THEN b
               ELSE IF ~TT(b).contr \/ b.p[1] \notin b.cfg.contracts THEN Raise(b, SEE)
